@@ -343,9 +343,15 @@ func variadicHoldsOnly(v ssa.Value, pred func(ssa.Value) bool) bool {
 
 // loopHeaderOf returns the header of the innermost natural loop containing b, or nil.
 func loopHeaderOf(b *ssa.BasicBlock) *ssa.BasicBlock {
+	// the natural loop of a back edge p→h: h and every block that reaches p without passing through h. (Reaching p
+	// by leaving the loop and coming round an outer loop does not make a block a member: a block after an inner loop
+	// belongs to the outer one.)
 	for h := b; h != nil; h = h.Idom() {
 		for _, p := range h.Preds {
-			if h.Dominates(p) && blockReaches(b, p, nil) {
+			if !h.Dominates(p) {
+				continue
+			}
+			if b == h || blockReaches(b, p, map[*ssa.BasicBlock]bool{h: true}) {
 				return h
 			}
 		}
